@@ -241,6 +241,10 @@ func cmdCheck(args []string) int {
 		fmt.Println("INCONCLUSIVE: a witness path did not replay natively (engine and real build disagree)")
 		exit = max(exit, 2)
 	}
+	if ev.Violations > 0 {
+		// a confirmed violation is the verdict, whatever else was inconclusive
+		exit = 1
+	}
 	ev.finish(p, time.Since(t0), exit)
 	if exit == 0 {
 		fmt.Printf("OK property=%s tier=%s paths=%d assertions=%d wall=%.1fs\n", id, *tier, ev.States, ev.Discharged, time.Since(t0).Seconds())
